@@ -155,11 +155,13 @@ func Start(t TestingT, opt ...Option) *Directory {
 	} else {
 		d.logger.Debug("not using TLS")
 	}
+	runErr := make(chan error, 1)
 	go func() {
 		err := d.s.Run(fmt.Sprintf("%s:%d", opts.withHost, opts.withPort), connOpts...)
 		if err != nil {
 			d.logger.Error("Error during shutdown", "op", "testdirectory.Start", "err", err.Error())
 		}
+		runErr <- err
 	}()
 
 	if v, ok := interface{}(t).(CleanupT); ok {
@@ -171,6 +173,14 @@ func Start(t TestingT, opt ...Option) *Directory {
 		time.Sleep(100 * time.Nanosecond)
 		if d.s.Ready() {
 			break
+		}
+		select {
+		case err := <-runErr:
+			// the server never became ready (it couldn't listen on the port
+			// for example), so don't wait for it forever
+			require.NoError(err, "directory server failed to start")
+			require.Fail("directory server stopped before it was ready")
+		default:
 		}
 	}
 	return d
